@@ -23,6 +23,10 @@ func (g *genCtx) scale(quick, thorough int) int {
 	if g.thorough() {
 		return thorough
 	}
+	if quick >= 2000 {
+		// case counts (not structural parameters such as document sizes): the quick tier has room for more
+		return quick * 2
+	}
 	return quick
 }
 
